@@ -6,6 +6,8 @@ import (
 	"strings"
 )
 
+var methOrder = []string{"vv", "pv", "vp", "pp", "vi", "pi"}
+
 // ShrinkSize is the first component of the shrinking measure: constructor
 // nodes plus struct fields beyond the first.
 func (t *Type) ShrinkSize() int {
@@ -33,8 +35,10 @@ func (t *Type) rankString() string {
 			} else {
 				b.WriteString("l")
 			}
-			if t.Meth != "" && t.Meth != "vv" {
-				b.WriteString("m" + t.Meth)
+			for i, mk := range methOrder {
+				if mk == t.Meth && i > 0 {
+					b.WriteString(fmt.Sprintf("m%d", i))
+				}
 			}
 			for _, f := range t.Fields {
 				switch {
@@ -160,10 +164,15 @@ func replacements(root, s *Type) []*Type {
 			c.Pkg = "local"
 			out = append(out, c)
 		}
-		if s.Meth != "" && s.Meth != "vv" { // canonical method kind: value receiver, value argument
-			c := s.Clone()
-			c.Meth = "vv"
-			out = append(out, c)
+		if s.Meth != "" { // towards the canonical method kind: value receiver, value argument
+			for _, mk := range methOrder {
+				if mk == s.Meth {
+					break
+				}
+				c := s.Clone()
+				c.Meth = mk
+				out = append(out, c)
+			}
 		}
 		for i, f := range s.Fields {
 			if f.Emb {
